@@ -50,6 +50,10 @@ class PCMMinorFrame(object):
         """
         if self.ipts is not None:
             self.ipts.unpack(buffer[:8])
+        # Only extract_sync_sfid fills these in; the data header is absent in throughput mode
+        self.syncword = None
+        self.sfid = None
+        self.intra_packet_data_header = None
         if not self.throughput:
             (self.intra_packet_data_header,) = struct.unpack_from(
                 PCMMinorFrame.DATA_HEADER_FORMAT[self.alignment], buffer, 8
